@@ -1,4 +1,5 @@
 """C15 — the description formatter only inserts whitespace and is total."""
+import re
 from ..core import q
 from ..core.q import expect_term, site, peel
 from ..core.ir import walk, strip, children
@@ -26,9 +27,47 @@ def is_ws(s):
 
 
 class Enum:
-    def __init__(self, N, out_id, ch_id, level_id, indent_fn, indent_local=None):
+    def __init__(self, N, out_id, ch_id, level_id, indent_fn, indent_local=None, lits=None):
         self.N, self.out_id, self.ch_id, self.level_id, self.indent_fn = N, out_id, ch_id, level_id, indent_fn
         self.indent_local = indent_local       # the indentation helper written as a closure bound to a local
+        self.lits = lits or {}                 # parameters of a helper that the call binds to character literals
+
+    def helper_paths(self, e):
+        """the paths of a private helper that works on the output on the loop's behalf (its parameters bound to the call's arguments); None when
+        the callee is not such a helper or has a path that cannot be analysed"""
+        cal, args = e.get("callee", ""), e["args"]
+
+        def root_of(a):
+            r = strip_ref(a)
+            return _root_local(r["e"]) if r.get("k") == "AddrOf" else _root_local(strip(a))
+        touches_out = any(root_of(a) == self.out_id for a in args)
+        helper_fn = self.N.transparent_fn(cal, len(args)) if cal and cal != self.indent_fn and touches_out else None
+        if helper_fn is None or strip(helper_fn["body"]).get("k") != "Block":
+            return None
+        params = helper_fn.get("params", [])
+        pids = [p.get("id") if p.get("k") == "Bind" else None for p in params]
+
+        def bound(want):
+            hits = [pids[i] for i, a in enumerate(args) if want is not None and root_of(a) == want and pids[i] is not None]
+            return hits[0] if len(hits) == 1 else None
+        lits = {}
+        for p_, a in zip(params, args):
+            a2 = strip(a)
+            if p_.get("k") == "Bind" and a2.get("k") == "Lit":
+                lits[p_["id"]] = a2["v"]
+            elif p_.get("k") == "Bind" and a2.get("k") == "Path" and a2.get("id") in self.lits:
+                lits[p_["id"]] = self.lits[a2["id"]]
+            elif p_.get("k") == "PTuple" and a2.get("k") == "Tup" and len(p_.get("ps", [])) == len(a2.get("es", [])):
+                for q_, x in zip(p_["ps"], a2["es"]):
+                    if q_.get("k") == "Bind" and strip(x).get("k") == "Lit":
+                        lits[q_["id"]] = strip(x)["v"]
+        sub = Enum(Norm(helper_fn), bound(self.out_id), bound(self.ch_id), bound(self.level_id), self.indent_fn, None, lits)
+        if sub.out_id is None:
+            return None
+        paths = sub.block_paths(strip(helper_fn["body"])["b"])
+        if not paths or any(x[0] in ("unknown", "exit") for p_ in paths for x in p_):
+            return None
+        return paths
 
     def stmt_events(self, e):
         """events of one expression (statement position): list of alternative paths"""
@@ -36,6 +75,11 @@ class Enum:
         k = e.get("k")
         if k == "Block":
             return self.block_paths(e["b"])
+        if k == "Call" and e.get("callee"):
+            hp = self.helper_paths(e)
+            if hp is not None and len(hp) > 1:
+                pre = []
+                return [pre + p for p in hp]        # a helper with branches forks the arm like an `if` written in place
         if k == "If":
             cond = strip(e["cond"])
             if cond.get("k") == "Let":
@@ -75,6 +119,8 @@ class Enum:
                     a = strip(e["args"][0])
                     if a.get("k") == "Path" and a.get("id") == self.ch_id:
                         ev.append(("push", "CH", e["sp"]))
+                    elif a.get("k") == "Path" and a.get("id") in self.lits:
+                        ev.append(("push", self.lits[a["id"]], e["sp"]))
                     elif a.get("k") == "Lit":
                         ev.append(("push", a["v"], e["sp"]))
                     else:
@@ -296,6 +342,9 @@ def check(ctx):
             key = "arm %s/path %d" % (label, pi)
             conds = [("" if pol else "!") + c for k, c, pol in [e for e in path if e[0] == "cond"]]
             pushes = [e for e in path if e[0] == "push"]
+            if re.fullmatch(r"'.'", label):
+                # in the arm for exactly one character, pushing that character as a literal is pushing the loop character
+                pushes = [("push", "CH") + tuple(e[2:]) if e[1] == label[1] else e for e in pushes]
             chp = [e for e in pushes if e[1] == "CH"]
             others = [e for e in pushes if e[1] != "CH"]
             bad = []
